@@ -42,7 +42,10 @@ def sp2_eff(tol):
 
 
 def job_lattice(tier, rng):
-    mols = [["h2"], ["h2o"], ["oh-"], ["nh4+"], ["ch3"], ["ch2t"], ["h2o", "oh-"], ["ch4", "h2"], ["h2o", "h2", "oh-"], ["nh3", "h2o"]]
+    scf_driver.MOLS["c_atom"] = ([6], [[0, 0, 0]], 0, 1)
+    scf_driver.MOLS["o_atom"] = ([8], [[0, 0, 0]], 0, 1)
+    scf_driver.MOLS["hh30"] = ([1, 1], [[0, 0, 0], [30.0, 0, 0]], 0, 1)
+    mols = [["h2"], ["h2o"], ["oh-"], ["nh4+"], ["ch3"], ["ch2t"], ["h2o", "oh-"], ["ch4", "h2"], ["h2o", "h2", "oh-"], ["nh3", "h2o"], ["c_atom", "ch4"], ["o_atom", "h2o"], ["hh30"], ["ch4", "c2h4", "h2o"]]
     convs = [[0, 0.0], [0, 0.3], [0, 0.7], [1], [2]]
     sp2s = [None, 1e-3, 1e-5, 1e-7]
     epss = [1e-4, 1e-7, 1e-10]
@@ -66,6 +69,8 @@ def job_lattice(tier, rng):
     if tier == "quick":
         must = [j for j in jobs if (j["mols"] == ["h2o", "oh-"] and j["params"]["sp2"][0] and j["params"]["scf_eps"] == 1e-7 and j["start"] == "guess" and j["cap"] is None and j["params"]["scf_converger"] == [1])]
         must += [j for j in jobs if j["cap"] == 3 and j["mols"] in (["ch4", "h2"], ["h2o"]) and j["params"]["scf_converger"] in ([0, 0.3], [2]) and not j["params"]["sp2"][0]]
+        must += [j for j in jobs if j["mols"] in (["c_atom", "ch4"], ["hh30"], ["ch4", "c2h4", "h2o"]) and j["params"]["sp2"] == [True, 1e-5] and j["params"]["scf_eps"] == 1e-7 and j["start"] == "guess" and j["cap"] is None
+                 and j["params"]["scf_converger"] in ([1], [2])]
         rest = [j for j in jobs if j not in must]
         jobs = must + rng.sample(rest, 60)
     for n, j in enumerate(jobs):
@@ -90,6 +95,18 @@ def validate(traces, scratch):
             rec = json.loads(json.loads(ln))
             r = rec["r"]
             out[rec["id"]] = {"accepted": r["l"] == rec["n"] and r["why"] == "-", "l": r["l"], "n": rec["n"], "k": r["k"], "why": r["why"]}
+    return out, res
+
+
+def validate_sp2(calls, scratch):
+    path = os.path.join(scratch, "sp2_traces.ndjson")
+    tlc.write_ndjson(path, calls)
+    res = tlc.run("SP2Trace", dict(spec="TSpec", constants=dict(Mat=Raw("{}"), Cap=0, WriteMode="active"), constraint="Track", postcondition="Post"), workers=1, env={"TRACE_FILE": path}, scratch=scratch, timeout=1800)
+    out = {}
+    for ln in res.stdout.splitlines():
+        if ln.startswith('"{'):
+            rec = json.loads(json.loads(ln))
+            out[rec["id"]] = {"accepted": rec["r"]["l"] == rec["n"], "l": rec["r"]["l"], "n": rec["n"]}
     return out, res
 
 
@@ -131,6 +148,7 @@ def main(tier):
         jobs = job_lattice(tier, rng)
         results = common.run_forked(jobs, scf_driver.run_job, timeout=900)
         traces = []
+        jobby_early = {j["id"]: j for j in jobs}
         calib = {}
         n_flagged = n_conv = 0
         samples = []
@@ -185,6 +203,37 @@ def main(tier):
                         rep.violation("predicate_failed", {"job": j, "mol": m, "pred": name, "value": pr[name], "bound": bound, "all": pr}, pred=name, **fields)
             if len(samples) < 2:
                 samples.append({"job": j, "flags": o["flags"], "pred": o["pred"][:1], "iterations": len(last["ev"]) - 1})
+        # SP2 inner loop: every recorded call (the first sweep of a call rewrites everything: mark it as such)
+        sp2calls = []
+        for t in traces:
+            for n, c in enumerate(t.get("sp2_calls", [])[:40]):
+                if c["ev"]:
+                    sp2calls.append({"id": f"{t['id']}/sp2#{n}", "n": c["n"], "cap": 500, "ev": c["ev"], "job": t["job"]})
+        if tier == "quick" and len(sp2calls) > 1500:
+            sp2calls = rng.sample(sp2calls, 1500)
+        n_sp2_ok = 0
+        if sp2calls:
+            r = tlc.run("SP2", dict(spec="Spec", constants=dict(Mat={1, 2, 3}, Cap=4, WriteMode="active"), invariants=["Bounded"], properties=["Frozen", "Shrinks", "Terminates"]), scratch=scratch)
+            rm = tlc.run("SP2", dict(spec="Spec", constants=dict(Mat={1, 2}, Cap=3, WriteMode="all"), invariants=["Bounded"], properties=["Frozen", "Shrinks", "Terminates"]), scratch=scratch)
+            states += r.distinct
+            trans += r.generated
+            if not r.ok:
+                rep.machinery("TLC SP2: " + str(r.violated or r.error)[:300])
+            if not rm.violated:
+                rep.machinery("vacuity: SP2 WriteMode=all not refuted")
+            sv, sres = validate_sp2([{k: v for k, v in c.items() if k != "job"} for c in sp2calls], scratch)
+            if sres.error:
+                rep.machinery("SP2Trace: " + sres.error[:500])
+            states += sres.distinct
+            trans += sres.generated
+            byid = {c["id"]: c for c in sp2calls}
+            for cid, v in sv.items():
+                if v["accepted"]:
+                    n_sp2_ok += 1
+                else:
+                    c = byid[cid]
+                    rep.violation("sp2_trace_rejected", {"job": {k: v2 for k, v2 in jobby_early[c["job"]].items()}, "call": cid, "matched": v["l"], "of": v["n"], "next_event_not_explained": c["ev"][v["l"]] if v["l"] < len(c["ev"]) else None},
+                                  solver=jobby_early[c["job"]]["params"]["scf_converger"][0], sp2=True)
         verdicts, tres = validate(traces, scratch)
         if tres.error:
             rep.machinery("SCFTrace: " + tres.error[:800])
@@ -214,8 +263,9 @@ def main(tier):
         cov = {
             "states": states,
             "transitions": trans,
-            "traces_validated_against_impl": len(verdicts),
-            "traces_accepted": n_acc,
+            "traces_validated_against_impl": len(verdicts) + len(sp2calls),
+            "traces_accepted": n_acc + n_sp2_ok,
+            "sp2_calls_validated": len(sp2calls),
             "samples": samples or [{"note": "none"}],
             "tlc_runs": tlc_runs,
             "spec_mutants_refuted": refuted,
